@@ -79,6 +79,10 @@ def family_codec(c, thorough, gen):
     for inp in ([], [0x7E], [0x2E, 0x00], [0x7E, 0x00]):
         cases.append(dict(k="dec", entry="plain", inp=inp))
     cases.append(dict(k="dec", entry="plain"))
+    for t in TABLES:                                  # the unknown-identifier path of every decoder
+        if t["family"] == "ENV": continue
+        u = unknown_octet(t["name"])
+        cases.append(dict(k="dec", entry="plain", inp=plain_minimal(t["name"]) + [u, u, u]))
     rng.shuffle(cases)
     cp = os.path.join(c.scratch, "c19-codec-cases.ndjson")
     with open(cp, "w") as f:
